@@ -343,3 +343,14 @@ func vLoadSites() []vSite {
 }
 
 func jsonUnmarshal(b []byte, v any) error { return json.Unmarshal(b, v) }
+
+// vInt reads an int from a replay payload value (int before, float64 after a JSON round trip).
+func vInt(v any) int {
+	switch x := v.(type) {
+	case int:
+		return x
+	case float64:
+		return int(x)
+	}
+	return 0
+}
